@@ -54,3 +54,67 @@ def _multi_env_padding_overflow(kind, w):
     return (non_classic and x.get("from_add_padding") is True
             and str(x.get("error", "")).startswith(
                 "Output shape must be greater than the input shape."))
+
+
+def _float32_mwkr_model(inst, history, available):
+    """Executable model of the observer-based most-work-remaining rule: job work
+    is held in a float32 DurationObserver column (initial job sum cast to
+    float32, each dispatched duration subtracted and re-rounded to float32);
+    the rule returns the first available operation with the largest value."""
+    import numpy as np
+
+    durations = inst["durations"]
+    rem = [np.float32(sum(job)) for job in durations]
+    flat = []
+    for j, job in enumerate(durations):
+        for p, d in enumerate(job):
+            flat.append((j, d))
+    for o, _m in history:
+        j, d = flat[o]
+        arr = np.array([[rem[j]]], dtype=np.float32)
+        arr[0, 0] -= d
+        rem[j] = arr[0, 0]
+    best, best_v = None, None
+    for o in available:
+        v = rem[flat[o][0]]
+        if best is None or v > best_v:
+            best, best_v = o, v
+    exact = {}
+    done = {o for o, _ in history}
+    for o in available:
+        j = flat[o][0]
+        exact[o] = sum(d for k, (jj, d) in enumerate(flat) if jj == j and k not in done)
+    return best, exact
+
+
+@classifier("observer_mwkr_float32_resolution")
+def _observer_mwkr_float32(kind, w):
+    """The observer-based MWKR rule differs from the exact rule only through
+    float32 rounding of job work sums beyond 2**24: the selection must be
+    exactly what the float32 model selects, the exact rule must prefer another
+    operation, and the instance must contain such large time values."""
+    x = w.get("witness", {})
+    case = w.get("case") or {}
+    inst = case.get("instance") or {}
+    if "durations" not in inst:
+        return False
+    if max(sum(job) for job in inst["durations"]) <= 2 ** 24:
+        return False
+    if kind == "c04_direct_and_observer_mwkr_differ":
+        available = x.get("available")
+        selected = x.get("observer")
+    elif kind == "c04_selection_not_best_under_rule" and (x.get("rule") or {}).get("type") == "observer_mwkr":
+        available = x.get("available")
+        selected = x.get("selected")
+    else:
+        return False
+    if available is None:
+        return False
+    model_choice, exact = _float32_mwkr_model(inst, x.get("history", []), available)
+    if model_choice != selected:
+        return False
+    if kind == "c04_direct_and_observer_mwkr_differ":
+        # the exact rule returns the first available operation with the largest exact value
+        first_best = next(o for o in available if exact[o] == max(exact.values()))
+        return x.get("direct") == first_best and selected != first_best
+    return exact[selected] != max(exact.values())
